@@ -44,6 +44,53 @@ def replay(b, path, prop, bad_of):
     return 1 if bad_of(r, res) else 0
 
 
+def premise_check(b, d, seed, tier):
+    """the premise `tc_annotations_typed` of the C01 / C02 theorems, CHECKED per program: the extracted
+    checker proofs/RtStaticCheck.v (sound: static_check_sound) is run on the annotated output of the
+    typechecker model for every candidate program of the suite (not only the ones that were run).
+    returns (coverage dict, list of accepted in-fragment programs the judgement does NOT type)"""
+    import collections as _c
+    from . import suite as S
+    cands = R.candidate_programs(seed, tier)
+    res = S.run_tool(b.model, "static-typed", [(i, "", t) for i, t in cands], timeout=1800)
+    cnt = _c.Counter((res.get(i, "MISSING").split(" ")[0]) for i, _ in cands)
+    ran = {i for i, _ in d.programs}
+    not_typed = [(i, t) for i, t in cands if res.get(i, "").startswith("NOT-TYPED") or res.get(i, "MISSING").startswith(("MISSING", "CRASH", "EXN"))]
+    cov = {
+        "premise_tc_annotations_typed_checked_on": int(cnt.get("TYPED", 0)),
+        "premise_outside_fragment": int(cnt.get("OUTSIDE-FRAGMENT", 0)),
+        "premise_failed_on": len(not_typed),
+        "premise_rule": "every candidate program of the suite is parsed and typechecked by the model; if it is accepted and in the fragment of the theorems "
+                        "the extracted checker static_typed_b decides whether the annotated program satisfies the run-time "
+                        "typing judgement; TYPED means the premise of safety_partial / progress_run_partial is a theorem for that program (static_check_sound)",
+        "premise_checked_among_programs_run": sum(1 for i, _ in cands if i in ran and res.get(i, "").startswith("TYPED")),
+    }
+    # the premise topo_reachable: TESTED (not proved) along model runs of every program of the fragment
+    typed = [(i, "", t) for i, t in cands if res.get(i, "").startswith("TYPED")]
+    seeds = (0, 1) if tier == "quick" else (0, 1, 2, 3)
+    confs, runs, bad = 0, 0, []
+    for md in ("async", "sync"):
+        for sd in seeds:
+            tr = S.run_tool(b.model, "topo-%s-%d" % (md, sd), typed, timeout=1800)
+            for i, _, t in typed:
+                r = tr.get(i, "MISSING")
+                if r.startswith("TOPO-OK"):
+                    runs += 1
+                    confs += int(r.split(" ")[1])
+                elif not r.startswith("SKIP"):
+                    bad.append((i, t, "%s seed %d: %s" % (md, sd, r)))
+    cov.update({
+        "premise_topo_tested_model_runs": runs,
+        "premise_topo_tested_configurations": confs,
+        "premise_topo_failed": len(bad),
+        "premise_topo_rule": "the executable test topo_code of proofs/TopoCheck.v (unique provider object, unique client object, no dangling client, closed channels unused, "
+                             "rank certificate for acyclicity) evaluated on EVERY configuration of model runs (async and sync, schedules %s) of every program on which the typing premise was checked; "
+                             "a test, not a proof: topo_reachable remains a premise of the theorems" % (list(seeds),),
+    })
+    not_typed = not_typed + [(i, t + "\n// " + why) for i, t, why in bad]
+    return cov, not_typed
+
+
 COMMON_ASSUMPTIONS = [
     "the Go scheduler, memory model and timers are outside the model; the model's quiescence is exact, the runtime's is detected by a timer (deviations are re-run with a longer timeout before they count)",
     "monitor on/off and GOMAXPROCS only vary on the implementation side",
